@@ -106,6 +106,13 @@ def main(argv=None):
     # budgets are sized well above the measured times (<= 5 s unloaded) so verdicts do not flip under load
     timeout_ms = 60000 if tier == 'quick' else 180000
     results = run_contracts(a.prop, cfg.get('modules', []), timeout_ms, a.jobs)
+    for spec in cfg.get('static', []):
+        # static contract checkers (effect / frame contracts decided on the AST, e.g. vf.effects for C20)
+        modname, fname = spec.split(':')
+        try:
+            results.extend(getattr(importlib.import_module(modname), fname)(os.environ.get('VERIF_REPO', '/repo')))
+        except Exception:
+            results.append({'contract': spec, 'status': 'error', 'reason': traceback.format_exc()[-1500:], 'obligations': [], 'props': []})
     known = load_known()
     kf = [k for k in known.get('findings', []) if k['property'] == a.prop]
 
